@@ -77,7 +77,12 @@ func newScenario(seed int64, maxDur time.Duration, st *stats) (*scenario, error)
 	ttl := ms(maxH * between(r, 3, 5))
 
 	prof := FaultProfile{MaxLatency: 3 * time.Millisecond, Slow: 1200 * time.Millisecond}
-	switch r.Intn(4) {
+	longSlow := false
+	switch r.Intn(5) {
+	case 4:
+		// heartbeat answers that arrive after the library's own 1 s time-out while the term goes on
+		prof.SlowUpdate = 250
+		longSlow = true
 	case 0: // clean
 	case 1:
 		prof.ErrPerMille, prof.LostAck, prof.SlowUpdate, prof.SlowOther, prof.WatchClose = 15, 5, 10, 3, 10
@@ -96,8 +101,14 @@ func newScenario(seed int64, maxDur time.Duration, st *stats) (*scenario, error)
 	if sc.duration > maxDur {
 		sc.duration = maxDur
 	}
+	if longSlow {
+		sc.duration = ms(between(r, 2400, 2800))
+	}
 	sc.hammers = between(r, 4, 8)
 	sc.churn = []int{1, 3, 3, 10, 25}[r.Intn(5)]
+	if longSlow {
+		sc.churn = 1
+	}
 	sc.outsiderQ = ms([]int{15, 40, 40, 120, 400}[r.Intn(5)])
 	pick := func(v ...int) int { return v[r.Intn(len(v))] }
 	// weights per 10000 calls; the rates of the calls that change something differ by
